@@ -9,7 +9,8 @@ EXPLANATION = (
     "D2 the reader takes the name as raw bytes between the parentheses and the RCS Id as the raw line, and splits fields on bytes (no u8-as-char Unicode predicate); "
     "D3 line shapes: checksum line = [digest] \" (\" [name] \") = \" [hash] \"\\n\", size line = \"Size (\" [name] \") = \" [size] \" bytes\\n\", identical in Entry::as_bytes and Distinfo::as_bytes; "
     "the reader's field positions (keyword 0, name 1, value 3) and its size keyword are derived from the writer's shapes and must agree; "
-    "D4 layout: the distfile/patchfile classification equals the naming rule on every feasible predicate assignment and is applied to the lossless-for-ASCII file name (rule shared with C11); header (rcsid or $NetBSD$, blank line), then distfiles (checksum lines then size line), then patchfiles (checksum lines), loops driven by the maps' values() in order; field tests may be `field == k` or the arm k of `match field`, the name cut `s[1..len-1]` under s[0]=='(' && s[len-1]==')' or strip_prefix(b\"(\") then strip_suffix(b\")\")")
+    "D4 layout: the distfile/patchfile classification equals the naming rule on every feasible predicate assignment and is applied to the lossless-for-ASCII file name (rule shared with C11); header (rcsid or $NetBSD$, blank line), then distfiles (checksum lines then size line), then patchfiles (checksum lines), loops driven by the maps' values() in order; field tests may be `field == k` or the arm k of `match field`, the name cut `s[1..len-1]` under s[0]=='(' && s[len-1]==')' or strip_prefix(b\"(\") then strip_suffix(b\")\")"
+    " D1-DIGEST-NAME the algorithm name written with Digest's Display is read back by Digest::from_str: C13's D2-DISPLAY / D2-ROUNDTRIP / D2-PARSE verdicts are shared instances.")
 NOT_DECIDED = [
     "byte-exact equality for every canonical file (std formatting of u64, IndexMap semantics)",
     "sizes on patch entries are not written (the canonical layout has none)",
@@ -421,3 +422,7 @@ def run(ctx):
 
     # ---- the accessors through which a parsed file is observed (and which the writer itself uses)
     distinfo_accessors(ctx, "D4-ACCESSOR")
+
+    # ---- D1-DIGEST-NAME: the writer prints each checksum's algorithm with Digest's Display and the reader parses it back with Digest::from_str:
+    #      the two tables must be mutually inverse (C13's D2-DISPLAY / D2-ROUNDTRIP / D2-PARSE verdicts, shared), or a written line is not read back
+    share_rules(ctx, "C13", ("D2-DISPLAY", "D2-ROUNDTRIP", "D2-PARSE"), "D1-DIGEST-NAME", "<digest::Digest as std::fmt::Display>::fmt", 12)
